@@ -30,7 +30,7 @@ ASSUMPTIONS = ['pure functions called directly; zkutils over the in-memory ZooKe
                'field alphabets follow etc/schema/*.json; the node-name separator "," never occurs in a field']
 BUDGET = {'quick': (2400, 30.0), 'thorough': (60000, 240.0)}
 REQUIRED_REACH = {'*': ['rule_roundtrips', 'name_roundtrips', 'event_roundtrips', 'event_pipeline', 'zk_roundtrips',
-                        'ldap_roundtrips', 'ldap_update_checks', 'mutation_pairs', 'uniqueid_stat']}
+                        'ldap_roundtrips', 'ldap_update_checks', 'ldap_diff_checks', 'mutation_pairs', 'uniqueid_stat']}
 
 ALNUM = string.ascii_letters + string.digits
 
@@ -617,6 +617,26 @@ def check_ldap(ctx, rng, reg, be):
     if obj != o_in:
         ctx.violation('ldap:%s:input-mutated' % which, 'to_entry changed its argument', case=case)
     reg.add('ldap:' + which, sorted(strip(entry).items()), sorted(strip(admin.to_entry(copy.deepcopy(view(back)))).items()), case)
+    # _diff_entries applied under LDAP set semantics turns the old entry into the new one
+    from treadmill.admin import _ldap as _l
+    other = {'app': gen_app, 'cell_alloc': gen_cell_alloc, 'partition': gen_partition}[which](rng)
+    old_e, new_e = admin.to_entry(copy.deepcopy(other)), admin.to_entry(copy.deepcopy(obj))
+    scratch = be._ldap_conn      # pylint: disable=protected-access
+    dn = 'cn=scratch,' + scratch.root_ou
+    scratch.store.pop(dn, None)
+    scratch.add(dn, attributes=_l._remove_empty(old_e))      # pylint: disable=protected-access
+    scratch.modify(dn, _l._diff_entries(dict(scratch.store[dn]), new_e))     # pylint: disable=protected-access
+    normv = lambda vals: sorted({'TRUE' if x is True else 'FALSE' if x is False else str(x) for x in vals})   # noqa (set semantics)
+    want = {k: normv(v) for k, v in new_e.items() if v}
+    have = {k: normv(v) for k, v in scratch.store[dn].items()}
+    ctx.count('ldap_diff_checks')
+    if want != have:
+        bad = sorted(k for k in set(want) | set(have) if want.get(k) != have.get(k))
+        ctx.violation('ldap:%s:diff-entries-wrong:%s' % (which, bad[0].split(';')[0]),
+                      'apply(_diff_entries(old, new), old) != new at %s: have %r want %r' % (
+                          bad[:3], {b: have.get(b) for b in bad[:3]}, {b: want.get(b) for b in bad[:3]}),
+                      case=dict(case, old=other))
+    scratch.store.pop(dn, None)
     # through the directory: create/get, then update/get
     try:
         admin.delete(ident)
